@@ -22,7 +22,8 @@ theorem andThen_inv {r : R} {k : World → Option Nat → R} (hr : RInv r)
 theorem ite_inv {c : Prop} [Decidable c] {a b : R} (ha : RInv a) (hb : RInv b) : RInv (if c then a else b) := by
   split <;> assumption
 
-theorem raise_inv {w : World} {m : String} (h : Inv w.c) : RInv (raise w m) := h
+theorem raise_inv {w : World} {m : String} (h : Inv w.c) : RInv (raise w m) := by
+  show Inv (raise w m).w.c; rw [raise_c]; exact h
 theorem crashR_inv {w : World} {m : String} (h : Inv w.c) : RInv (crashR w m) := h
 theorem hangR_inv {w : World} {m : String} (h : Inv w.c) : RInv (hangR w m) := h
 
@@ -58,7 +59,7 @@ theorem exec_inv : ∀ (f : Nat) (t : Task) (w : World), Inv w.c → RInv (exec 
       cases l with
       | nil => simpa [exec] using hw
       | cons op rest =>
-        simp only [exec]
+        simp only [exec, hbRemove_c, hbAdd_c]
         apply andThen_inv
         · cases op with
           | ld b =>
@@ -92,6 +93,12 @@ theorem exec_inv : ∀ (f : Nat) (t : Task) (w : World), Inv w.c → RInv (exec 
             · refine andThen_inv (ih _ _ (by exact hw)) ?_
               intro w1 v h1; exact h1
             · exact hw
+          | hbe a =>
+            try simp only
+            split <;> (first | exact hw | (show Inv (hbAdd _ _).c; rw [hbAdd_c]; exact hw))
+          | hbd a =>
+            try simp only
+            split <;> (first | exact hw | (show Inv (hbRemove _ _).c; rw [hbRemove_c]; exact hw))
           | pr e t =>
             try simp only
             split
@@ -199,7 +206,7 @@ theorem exec_inv : ∀ (f : Nat) (t : Task) (w : World), Inv w.c → RInv (exec 
             · exact halloc
             · intro w1 v h1; split <;> exact h1
     | clone b =>
-      simp only [exec]
+      simp only [exec, hbRemove_c]
       refine andThen_inv (ih _ _ hw) ?_
       intro w1 v h1
       split
@@ -308,7 +315,7 @@ theorem exec_inv : ∀ (f : Nat) (t : Task) (w : World), Inv w.c → RInv (exec 
       refine ite_inv (crashR_inv hw) ?_
       refine ite_inv (by exact hw) (ih _ _ hw)
     | dloop ob sup0 saveR =>
-      simp only [exec]
+      simp only [exec, hbRemove_c]
       split
       · rename_i hempty
         split
@@ -370,6 +377,28 @@ theorem probe_inv {w : World} (hw : Inv w.c) : Inv (probe w).c := by
       · exact h1
       · exact findLivingC_inv _ h1
 
+theorem hbRound_inv (sc : Scripts) : ∀ (fuel : Nat) (w : World), Inv w.c → RInv (hbRound sc fuel w) := by
+  intro fuel
+  induction fuel with
+  | zero => intro w hw; exact hw
+  | succ fuel ih =>
+    intro w hw
+    simp only [hbRound]
+    split
+    · exact hw
+    · refine ite_inv (by exact hw) ?_
+      refine andThen_inv (exec_inv sc _ _ _ (by exact hw)) ?_
+      intro w1 v h1
+      exact ite_inv (by exact h1) (ih _ (by exact h1))
+
+theorem tick_inv (sc : Scripts) {w : World} (hw : Inv w.c) : Inv (tick sc w).c := by
+  unfold tick
+  simp only
+  split
+  · exact hw
+  · have := hbRound_inv sc (w.hbl.length + 1000) { w with hbTodo := w.hbl.length, hbIdx := 0 } hw
+    split <;> exact this
+
 theorem stepCmd_inv (sc : Scripts) {w : World} (cmd : Cmd) (hw : Inv w.c) : Inv (stepCmd sc w cmd).c := by
   cases cmd with
   | top op =>
@@ -378,6 +407,7 @@ theorem stepCmd_inv (sc : Scripts) {w : World} (cmd : Cmd) (hw : Inv w.c) : Inv 
     split
     · exact hw
     · split <;> exact this
+  | tick => exact tick_inv sc hw
   | snap => exact hw
   | probe => exact probe_inv hw
   | gc => exact gc_inv hw
